@@ -81,6 +81,7 @@ type Lemma struct {
 	Axiom  bool // assumed, listed in trusted base
 	DataFact bool // a Go boolean expression over package-level values, discharged by executing it
 	Uses   []string
+	Pkg    string
 	Props  []string
 	File   string
 	Line   int
@@ -185,8 +186,16 @@ func (sp *Specs) loadFile(path string) error {
 			if i < 0 {
 				return fail("lemma needs 'name: formula'")
 			}
-			head := strings.Fields(rest[:i])
-			lm := &Lemma{Name: head[0], Axiom: kw == "axiom", DataFact: kw == "datafact", Src: strings.TrimSpace(rest[i+1:]), File: path, Line: rl.line}
+			headStr := rest[:i]
+			var lparams, ltys []string
+			if a := strings.Index(headStr, "("); a >= 0 {
+				if b := strings.Index(headStr, ")"); b > a {
+					lparams, ltys = splitParams(headStr[a+1 : b])
+					headStr = headStr[:a] + headStr[b+1:]
+				}
+			}
+			head := strings.Fields(headStr)
+			lm := &Lemma{Name: head[0], Vars: lparams, VTypes: ltys, Axiom: kw == "axiom", DataFact: kw == "datafact", Src: strings.TrimSpace(rest[i+1:]), File: path, Line: rl.line}
 			for _, h := range head[1:] {
 				if strings.HasPrefix(h, "uses=") {
 					lm.Uses = strings.Split(h[5:], ",")
@@ -199,6 +208,7 @@ func (sp *Specs) loadFile(path string) error {
 				return fail("%v", err)
 			}
 			lm.Body = e
+			lm.Pkg = pkg
 			sp.Lemmas[lm.Name] = lm
 			sp.LemmaOrd = append(sp.LemmaOrd, lm.Name)
 			cur = nil
